@@ -116,7 +116,9 @@ def _arr(draw, inner=None):
 @st.composite
 def _pandas(draw):
     n = draw(st.integers(0, 3))
-    idx = draw(st.one_of(st.just(['range', n]), st.lists(st.integers(D0, D0 + 5), min_size=n, max_size=n, unique=True).map(lambda o: ['dates', sorted(o)])))
+    idx = draw(st.one_of(st.just(['range', n]), st.lists(st.integers(D0, D0 + 5), min_size=n, max_size=n, unique=True).map(lambda o: ['dates', sorted(o)]),
+                         # labels need not be unique nor sorted: "equal only if index, columns and all cells match" is about positions
+                         st.lists(st.integers(D0, D0 + 1), min_size=n, max_size=n).map(lambda o: ['dates', o])))
     cell = st.one_of(st.sampled_from([0.0, 1.0, 2.5]), _nan)
     if draw(st.booleans()):
         kind = draw(st.sampled_from(['float64', 'float64', 'int64', 'object']))
@@ -127,7 +129,7 @@ def _pandas(draw):
         else:
             vals = draw(st.lists(cell, min_size=n, max_size=n))
         return ['series', idx, vals, kind]
-    cols = draw(st.lists(st.sampled_from(['a', 'b', 'c']), min_size=0, max_size=3, unique=True))
+    cols = draw(st.one_of(st.lists(st.sampled_from(['a', 'b', 'c']), min_size=0, max_size=3, unique=True), st.lists(st.sampled_from(['a', 'a', 'b']), min_size=2, max_size=3)))
     rows = [[draw(cell) for _ in cols] for _ in range(n)]
     return ['df', idx, cols, rows]
 
@@ -326,7 +328,7 @@ def _mutations(v, path=()):
         if cols:
             out.append(('columns', ['df', idx, cols[:-1] + [cols[-1] + 'z'], rows]))
             out.append(('columns_dropped', ['df', idx, cols[:-1], [r[:-1] for r in rows]]))
-            if len(cols) >= 2:
+            if len(cols) >= 2 and cols[0] != cols[1]:
                 out.append(('columns_swapped', ['df', idx, [cols[1], cols[0]] + cols[2:], rows]))
             for i, r in enumerate(rows):
                 for j, c in enumerate(r):
@@ -404,6 +406,10 @@ def _classes(*specs):
             cls.add('nan')
         if has(v, lambda x: tag(x) in ('series', 'df')):
             cls.add('pandas')
+        if has(v, lambda x: tag(x) == 'df' and len(set(x[2])) < len(x[2])):
+            cls.add('duplicate_column_labels')
+        if has(v, lambda x: tag(x) in ('series', 'df') and x[1][0] == 'dates' and len(set(x[1][1])) < len(x[1][1])):
+            cls.add('duplicate_index_labels')
         if has(v, lambda x: tag(x) == 'arr'):
             cls.add('array')
         if tag(v) in CONT and has(v, lambda x: x is not v and tag(x) in CONT):
@@ -643,7 +649,7 @@ SUBS = [
     Sub('copy_near', lambda tier: _copy_near, run_copy_near, quick=4000, thorough=20000,
         rule='x with a structural copy (fresh NaN objects) must be equal; x with one definite change (leaf, container type, length, key, reshape, wrap, index, columns, cell) '
              'must be unequal, both directions. non-trivial = x is a container or holds NaN',
-        floor=0.3, class_floors={'near=ctype': 0.03, 'near=reshape': 0.01, 'near=leaf': 0.05}),
+        floor=0.3, class_floors={'near=ctype': 0.03, 'near=reshape': 0.01, 'near=leaf': 0.05, 'duplicate_column_labels': 0.01, 'duplicate_index_labels': 0.005}),
     Sub('triples', lambda tier: _triple, run_triples, quick=2500, thorough=15000,
         rule='triples (x, d1(x), d2(x)) with d in {copy, value-equal twin, double twin, near miss, unrelated}; all 9 eq values; symmetry, reflexivity and transitivity. '
              'non-trivial = at least one equal pair of differently written values',
